@@ -29,6 +29,9 @@ func checkC11(r *Report, p *Program) {
 	r11_2(r, p, comp)
 	r11_3(r, p)
 	r11_4(r, p, comp)
+	// the status decision compares with the LIVE object inside the read-modify-write, not with a memo of earlier syncs
+	rmwClosuresReadLive(r, p, "R11.5")
+	noNewCrossSyncState(r, p, "R11.6")
 }
 
 func r11_1(r *Report, p *Program, e *syncEntry) {
